@@ -62,7 +62,7 @@ func runC11Case(rt *rapid.T) {
 	if small {
 		U = irange(rt, 20, 400, "smallU")
 	} else {
-		U = pick(rt, []int{600, 3000, 30000}, "largeU")
+		U = pick(rt, []int{600, 3000, 30000, 30000, 120000}, "largeU")
 	}
 	var specs []adapt.Spec
 	h1 := pick(rt, c11Hints, "hintA")
@@ -180,6 +180,9 @@ func runC11Case(rt *rapid.T) {
 				cnt := irange(rt, 50, 1000, "bulkN")
 				if !small && uniform(rt, 3, "huge") == 0 {
 					cnt *= irange(rt, 5, 20, "mult")
+				}
+				if U > 100000 && uniform(rt, 2, "giant") == 0 {
+					cnt = irange(rt, 20, 100, "giantK") * 1000 // tables of thousands of buckets (resize strategies may differ there)
 				}
 				start := rapid.IntRange(0, U-1).Draw(rt, "bulkStart")
 				if start+cnt > U {
